@@ -10,18 +10,26 @@ open Hive
 
 /-- One sub-state per section; every case header resets all of them. -/
 structure DSt where
+  ar : Events.St
   p0 : Promise.St
   ev : Events.St
   it : EventsRelink.LSt
   pr : Promise.St
   vn : Notifier.St
 
-def dinit : DSt := { p0 := Promise.init, ev := Events.init, it := EventsRelink.linit, pr := Promise.init, vn := Notifier.init }
+def dinit : DSt := { ar := Events.init, p0 := Promise.init, ev := Events.init, it := EventsRelink.linit, pr := Promise.init, vn := Notifier.init }
 
 def dstep (s : DSt) (toks : List String) : DSt × String :=
   match toks with
   | "ev" :: r => let (x, o) := Events.stepLine s.ev r; ({ s with ev := x }, o)
   | "it" :: r => let (x, o) := EventsRelink.stepLine s.it r; ({ s with it := x }, o)
+  | "ar" :: r =>   -- arity twins Event … Event9: the same event machine, argument tuples written as digit strings
+    match r with
+    | ["arity", _] => (s, "ok")
+    | ["hook", e, m] => let (x, o) := Events.stepLine s.ar ["hook", e, m, "sync"]; ({ s with ar := x }, o)
+    | ["new", _] | ["unhook", _] | ["trigger", _, _] | ["link", _, _] | ["unlink", _] | ["tcount", _] =>
+      let (x, o) := Events.stepLine s.ar r; ({ s with ar := x }, o)
+    | _ => (s, "bad-op")
   | "pr" :: r => let (x, o) := Promise.stepLine s.pr r; ({ s with pr := x }, o)
   | "p0" :: r =>   -- the parameterless promise.Event: no argument, reported as 0
     match r with
